@@ -139,7 +139,7 @@ def viacEntry (com : Commodity) (fromDay : Int) (e : String × String) : List It
 def viac (com : Commodity) (fromDay : Int) (es : List (String × String)) : List Item := es.flatMap (viacEntry com fromDay)
 
 /-! ### `ch.swissquote`: `Nettobetrag` (col 10) in `Währung` (col 12) is the change of the cash account for every row
-type; trades (`Kauf`/`Verkauf`) also move `Anzahl` (col 6) of `Symbol` (col 3), in when cash goes out; the two halves of a
+type; trades also move `Anzahl` (col 6) of `Symbol` (col 3): in for a `Kauf`, out for a `Verkauf`; the two halves of a
 forex pair are two rows booked as **one** transaction on the second row's date; dividends are booked as
 `Stückpreis` (col 7, the gross amount) minus `Kosten` (col 8, the tax withheld). -/
 def swissquoteRows : Option Rec → List Rec → List Item
@@ -151,7 +151,7 @@ def swissquoteRows : Option Rec → List Rec → List Item
     let net := numApos (fldD l 10)
     let fee := numApos (fldD l 8)
     if ty = "Kauf" || ty = "Verkauf" then
-      .booking d [(fldD l 3, if 0 < net + fee then -numApos (fldD l 6) else numApos (fldD l 6)), (cur, net)] ::
+      .booking d [(fldD l 3, if ty = "Verkauf" then -numApos (fldD l 6) else numApos (fldD l 6)), (cur, net)] ::
         swissquoteRows last ls
     else if Swissquote.forexTypes.contains ty then
       match last with
